@@ -42,9 +42,11 @@ type event struct {
 type world struct {
 	t         *testing.T
 	dir       string
-	port      map[string]int // "p1","p2" -> tcp port
-	busy      net.Listener   // a port held by the harness (fail@listen)
-	mu        sync.Mutex     // orders the trace
+	port      map[string]int    // "p1","p2" -> tcp port (where requests go)
+	host      map[string]string // ... -> bind address
+	cfgPort   map[string]int    // ... -> the port as written in the configuration (0: the system chooses)
+	busy      net.Listener      // a port held by the harness (fail@listen)
+	mu        sync.Mutex        // orders the trace
 	events    []event
 	nextID    int64
 	p2lock    sync.RWMutex // held for reading by requests to p2, for writing across reloads that may drop p2
@@ -73,7 +75,7 @@ func (w *world) config(gen int, kind string, ports []string) casket.Input {
 	os.WriteFile(filepath.Join(root, "f.txt"), []byte(content(gen)), 0o644)
 	var b strings.Builder
 	for i, p := range ports {
-		fmt.Fprintf(&b, "127.0.0.1:%d {\n\tbind 127.0.0.1\n\troot %s\n\tverifprobe\n", w.port[p], root)
+		fmt.Fprintf(&b, "%s:%d {\n\tbind %s\n\troot %s\n\tverifprobe\n", w.host[p], w.cfgPort[p], w.host[p], root)
 		if i == 0 {
 			if kind == "failstartup" {
 				fmt.Fprintf(&b, "\tverifgate %d failstartup\n", gen)
@@ -114,7 +116,7 @@ func (w *world) requestSlow(a string, ms int) {
 }
 
 func (w *world) get(a string, ms int) (int, string, string) {
-	addr := "127.0.0.1:" + strconv.Itoa(w.port[a])
+	addr := w.host[a] + ":" + strconv.Itoa(w.port[a])
 	var hdr []string
 	if ms > 0 {
 		// every other slow request is served by a handler that watches the request context
@@ -182,13 +184,24 @@ func (w *world) reloadBySignal(old *casket.Instance, in casket.Input) (*casket.I
 var kinds = []string{"ok", "ok", "ok", "failparse", "failsetup", "failstartup", "faillisten"}
 
 // scenario runs one world: nReloads reloads under nClients free-running clients.
-func scenario(t *testing.T, rnd *rand.Rand, nReloads, nClients int, dropEvent bool, grace time.Duration, viaSignal bool) ([]event, []event, error) {
+// layout: "" = two ports on 127.0.0.1; "sameport" = p2 is p1's port on the bind address 127.0.0.2;
+// "port0" = p1 is written with port 0 and lives wherever the system put it at the first start
+func scenario(t *testing.T, rnd *rand.Rand, nReloads, nClients int, dropEvent bool, grace time.Duration, viaSignal bool, layout string) ([]event, []event, error) {
 	// the grace period of the servers created from now on (-grace flag; 0 = do not wait for
 	// in-flight requests, which must complete all the same)
 	oldGrace := httpserver.GracefulTimeout
 	httpserver.GracefulTimeout = grace
 	defer func() { httpserver.GracefulTimeout = oldGrace }()
 	w := &world{t: t, dir: t.TempDir(), port: map[string]int{"p1": hx.FreePort(), "p2": hx.FreePort()}, p2stable: true, sigDone: make(chan string, 1), viaImport: rnd.Intn(2) == 0}
+	w.host = map[string]string{"p1": "127.0.0.1", "p2": "127.0.0.1"}
+	switch layout {
+	case "sameport":
+		w.host["p2"], w.port["p2"] = "127.0.0.2", w.port["p1"]
+	}
+	w.cfgPort = map[string]int{"p1": w.port["p1"], "p2": w.port["p2"]}
+	if layout == "port0" {
+		w.cfgPort["p1"] = 0
+	}
 	var err error
 	w.busy = hx.ListenFresh()
 	defer w.busy.Close()
@@ -237,6 +250,19 @@ func scenario(t *testing.T, rnd *rand.Rand, nReloads, nClients int, dropEvent bo
 	inst, err := casket.Start(first)
 	if err != nil {
 		return nil, nil, fmt.Errorf("initial start: %v", err)
+	}
+	if layout == "port0" {
+		// where did the system put p1? (the listener that is not p2's)
+		w.port["p1"] = 0
+		for _, sl := range inst.Servers() {
+			if ta, ok := sl.Addr().(*net.TCPAddr); ok && ta.Port != w.port["p2"] {
+				w.port["p1"] = ta.Port
+			}
+		}
+		if w.port["p1"] == 0 {
+			inst.Stop()
+			return nil, nil, fmt.Errorf("initial start: no listener found for the port-0 site")
+		}
 	}
 	stop := make(chan struct{})
 	var wg sync.WaitGroup
@@ -364,7 +390,10 @@ func TestC07(t *testing.T) {
 	for s := 0; s < nScen; s++ {
 		grace := []time.Duration{5 * time.Second, 0, 30 * time.Millisecond}[s%3]
 		viaSignal := (s/3)%2 == 1 // every other group of three scenarios reloads through SIGUSR1 and the registered loader
-		ev, bad, err := scenario(t, rnd, nReloads, nClients, hx.SelfTest() && s == 0, grace, viaSignal)
+		// every fifth scenario has the second site on the first one's port (another bind address),
+		// every fifth (offset) a first site written with port 0
+		layout := map[int]string{3: "sameport", 4: "port0"}[s%5]
+		ev, bad, err := scenario(t, rnd, nReloads, nClients, hx.SelfTest() && s == 0, grace, viaSignal, layout)
 		if err != nil {
 			res.Infra = err.Error()
 			break
